@@ -98,3 +98,6 @@ Proof.
   destruct d as [|b r]; [discriminate|]. cbn [purchase_decode].
   destruct (byte_eqb b x50) eqn:E; [|discriminate]. apply byte_eqb_eq in E. intro H. inversion H. subst. reflexivity.
 Qed.
+
+Lemma ex_env_wf : env_wf (Signed (repeat x07 20) (repeat x05 64) [x0a; x00]).
+Proof. split; reflexivity. Qed.
